@@ -154,8 +154,20 @@ def skeleton_blocks():
                         for g2 in us:
                             for b in (Y, ny):
                                 yield p_((mid, (g1(a), g2(b))))
+    def nary_mid_aligned():
+        """the sub-family of nary-mid in which both grandchildren are the SAME constructor with the same parameter
+        (what consolidation rules gather) - small enough to be enumerated completely in the quick tier as well"""
+        nx, ny = ("Negation", X), ("Negation", Y)
+        for p_ in us:
+            for mid in ("Add", "Multiply"):
+                for g in us:
+                    for a in (X, nx):
+                        for b in (Y, ny):
+                            yield p_((mid, (g(a), g(b))))
+                            yield p_((mid, (g(a), Y, g(b))))
     return [("unary-parents", False, unary_parents), ("chains", False, chains), ("ternary", False, ternary),
-            ("towers", False, towers), ("binary-parents", True, binary_parents), ("nary-mid", True, nary_mid)]
+            ("towers", False, towers), ("nary-mid-aligned", False, nary_mid_aligned),
+            ("binary-parents", True, binary_parents), ("nary-mid", True, nary_mid)]
 
 
 def invariant(stats, m, sub, big=False):
@@ -336,7 +348,7 @@ def replay(case):
 def self_test(tier, agg):
     bad = []
     c = agg.get("skeletons", {}).get("counters", {})
-    for b in ("unary-parents", "chains", "ternary", "towers", "binary-parents", "nary-mid"):
+    for b in ("unary-parents", "chains", "ternary", "towers", "nary-mid-aligned", "binary-parents", "nary-mid"):
         if c.get("block:" + b, 0) < (500 if b == "towers" else 1000):
             bad.append(f"C11: skeleton block {b} enumerated too few terms")
     if agg.get("random", {}).get("counters", {}).get("size>=100", 0) < 20:
